@@ -181,3 +181,33 @@ Fixpoint l_run (n : Z) (loop : bool) (s : lstate) (ops : list lop) : lstate * li
   | o :: r => let '(s', out) := l_step n loop s o in
               let '(s'', outs) := l_run n loop s' r in (s'', out :: outs)
   end.
+
+(* ------------------------------------------------------------------------------------------
+   The energy source.  Generator.__init__ keeps a callable `energy` as self.get_energy WITHOUT calling
+   it (a number becomes a constant function); every call of create_event -- also each recursive call
+   after a rejected throw -- calls self.get_energy() exactly once (E = self.get_energy()), and the user
+   may call gen.get_energy() directly.  For a stateful source (tabulated spectrum, iterator.__next__,
+   sampler with its own RNG) the state is the number of values drawn so far.
+   Throws r = one create_event whose first r throws are rejected by shadowing (r = 0 without shadowing).
+   ------------------------------------------------------------------------------------------ *)
+Record gstate := mkG { g_pos : Z; g_count : Z }.
+Inductive gop := Throws (rejected : nat) | DirectEnergy | SetCountG (c : Z).
+Inductive gout := GEvent (energy_index count : Z) | GEnergy (index : Z) | GDone.
+
+Definition g_init (c : Z) : gstate := mkG 0 c.
+
+Definition g_step (s : gstate) (o : gop) : gstate * gout :=
+  match o with
+  | Throws r =>
+      let n := (Z.of_nat r + 1)%Z in
+      (mkG (g_pos s + n) (g_count s + n), GEvent (g_pos s + Z.of_nat r) (g_count s + n))
+  | DirectEnergy => (mkG (g_pos s + 1) (g_count s), GEnergy (g_pos s))
+  | SetCountG c => (mkG (g_pos s) c, GDone)
+  end.
+
+Fixpoint g_run (s : gstate) (ops : list gop) : gstate * list gout :=
+  match ops with
+  | [] => (s, [])
+  | o :: r => let '(s', out) := g_step s o in
+              let '(s'', outs) := g_run s' r in (s'', out :: outs)
+  end.
